@@ -137,15 +137,20 @@ func c18r3(r *R) {
 	rb := r.fn(mpkg+"/header", "randomBoundary")
 	ps, _ = enumPaths(rb, 16, 1)
 	good := false
+	bufName := ""
 	for _, p := range ps {
 		if len(p.Ret) == 1 && !strings.HasPrefix(p.Ret[0], "<panic") {
-			good = p.eventIndex(0, "call", eq("io.ReadFull(crypto/rand.Reader, local:buf[:])")) >= 0 && p.Ret[0] == "encoding/hex.EncodeToString(local:buf[:])" &&
-				p.hasCond(func(c string) bool { return strings.HasPrefix(c, "!(io.ReadFull(crypto/rand.Reader,") })
+			// the local's name is free; the same array must be filled and encoded
+			if m := regexp.MustCompile(`^encoding/hex\.EncodeToString\(local:(\w+)\[:\]\)$`).FindStringSubmatch(p.Ret[0]); m != nil {
+				bufName = m[1]
+				good = p.eventIndex(0, "call", eq("io.ReadFull(crypto/rand.Reader, local:"+bufName+"[:])")) >= 0 &&
+					p.hasCond(func(c string) bool { return strings.HasPrefix(c, "!(io.ReadFull(crypto/rand.Reader,") })
+			}
 		}
 	}
 	var n int
 	eachInstr(rb, func(ins ssa.Instruction) {
-		if a, ok := ins.(*ssa.Alloc); ok && a.Comment == "buf" {
+		if a, ok := ins.(*ssa.Alloc); ok && a.Comment == bufName {
 			if typeStr(a.Type()) == "*[10]byte" {
 				n = 10
 			}
